@@ -286,6 +286,17 @@ impl Fam for CharFam {
             }
         }
     }
+    fn sweep_setups() -> Vec<CSetup> {
+        let texts = ["", "a", "é", "€", "😀", "aé€😀", "😀€éa", "\u{7ff}\u{800}\u{ffff}\u{10000}", "\u{e000}\u{d7ff}\u{10ffff}\u{0}", "ࠀa\u{fff}", "ab"];
+        let mut v = Vec::new();
+        for t in texts {
+            for kind in [CKind::Chars, CKind::CharIndices] {
+                v.push(CSetup { text: t.to_string(), kind });
+            }
+        }
+        v
+    }
+
     fn required_probes() -> &'static [&'static str] {
         &[
             "chars-4-byte-from-back",
